@@ -5,13 +5,12 @@ from .mir import callee, callee_matches, Prov
 from .ctx import where_of
 
 EXPLANATION = (
-    "Static rules over the MIR of `main`, `Interpreter::eval`, `Interpreter::eval_file` and a census "
-    "of every stdout/stderr writer in lib+bin: exit-status paths (Err arm of eval_file's result always "
-    "reaches process::exit(non-zero) and never returns Ok; Ok arm never exits), the diagnostic is "
-    "written only to the handle from StandardStream::stderr with template FILE:LINE:COL MESSAGE\\n whose "
-    "placeholders derive from the file argument, location[0], location[1] and the error, stdout writers "
-    "are exactly display/newline/REPL, evaluation stops at the first error (try_fold closure returns "
-    "eval_root_ast's Result unchanged) and eval_file goes through eval after recording the program directory.")
+    '(front-end table) abstract interpretation of `main` with the interpreter stubbed: success => nothing '
+    'written, no exit call; failure with / without a location => exactly FILE:LINE:COL MESSAGE newline on the '
+    'stderr handle, nothing on stdout, process::exit(non-zero); census of every stdout / stderr writer in lib+bin '
+    '(display, newline, REPL; closed under helper extraction); evaluation stops at the first error; forms are '
+    'read one at a time (an error in a later form does not prevent earlier output); eval_file reaches evaluation '
+    "only through eval after recording the program directory; eval returns the last form's value.")
 NOT_DECIDED = ("byte-exact stdout for arbitrary programs; equality with in-process evaluation of the same "
                "text; behaviour of the OS / file system.")
 
@@ -221,109 +220,126 @@ def run(ctx):
                                        owner, c, sorted(STDERR_ALLOW)), where_of(f, t))
     ctx.floor("C17-stdout-census", 6)
 
-    # ------------------------------------------------------------------ C17-stop-at-first
-    ctx.rule("C17-stop-at-first", "eval stops at the first failing form: try_fold whose closure returns the "
-                                  "Result of eval_root_ast (or the reader's error) unchanged")
+    # ------------------------------------------------------------------ C17-stop-at-first / C17-incremental: flow table of eval
+    ctx.rule("C17-stop-at-first", "eval stops at the first failing form (read error or evaluation error): nothing after it is evaluated, "
+                                  "the error is the result")
+    ctx.rule("C17-incremental", "forms are read one at a time, each evaluated before the next is read (effects and output of earlier "
+                                "forms precede a later read error)")
+    from . import maintables
+    d_flow = maintables.rule_eval_flow(ctx, {"stop-at-first": "C17-stop-at-first", "incremental": "C17-incremental"})
     ev = fb.find("interpreter::interpreter::Interpreter::eval")
-    tf = [(b, t) for b, t in ev.calls() if callee_matches(t, "std::iter::Iterator::try_fold")]
-    fe = [(b, t) for b, t in ev.calls() if callee_matches(t, "for_each", "std::iter::Iterator::fold", "Iterator::map")]
-    if len(tf) != 1 or fe:
-        # alternative shapes (an explicit loop with `?`) are accepted when every eval_root_ast result is
-        # propagated with `?`: handled by C08-no-swallow; here we only insist on *some* propagating shape
-        loops = ev.loop_blocks()
-        era = [(b, t) for b, t in ev.calls() if callee_matches(t, "Interpreter::eval_root_ast")]
-        if not (era and all(b in loops for b, _ in era)) or fe:
-            ctx.report("C17-stop-at-first", "eval/shape", "eval neither try_folds nor loops over eval_root_ast with "
-                       "error propagation", where_of(ev))
-        else:
-            p = Prov(ev)
-            for b, t in era:
-                ctx.inst("C17-stop-at-first", "eval/loop-call")
-                sw = mir.result_switch_after(ev, ev.blocks[b]["term"].get("target")) if False else None
-            if not any(c == "interpreter::interpreter::Interpreter::eval_root_ast" or (c or "").endswith("from_residual")
-                       for _, c in p.call_roots(0)):
-                ctx.report("C17-stop-at-first", "eval/return", "eval's result does not derive from eval_root_ast",
-                           where_of(ev))
-    else:
-        b, t = tf[0]
-        p = Prov(ev)
-        if not any((c or "").endswith("try_fold") for _, c in p.call_roots(0)):
-            ctx.report("C17-stop-at-first", "eval/return", "eval does not return the result of try_fold", where_of(ev, t))
-        cl = fb.closures_of(ev)
-        ctx.inst("C17-stop-at-first", "eval/try_fold", {"closures": [c.name for c in cl]})
-        found = False
-        for c in cl:
-            era = [(bb, tt) for bb, tt in c.calls() if callee_matches(tt, "Interpreter::eval_root_ast")]
-            if not era:
-                continue
-            found = True
-            pc = Prov(c)
-            roots = {n for _, n in pc.call_roots(0)}
-            ctx.inst("C17-stop-at-first", "eval/closure-return", {"roots": sorted(roots)})
-            # every return value must be either eval_root_ast's result or a propagated residual
-            bad = [r for r in roots if not (r.endswith("eval_root_ast") or r.endswith("from_residual"))]
-            consts = [r for r in pc.roots(0) if r[0] in ("agg",)] if not rewrapped_only(c, pc) else []
-            if bad or consts:
-                ctx.report("C17-stop-at-first", "eval/closure-swallows", "the fold closure can return a value not "
-                           "produced by eval_root_ast (%s) — an error could be replaced" % (bad or consts), where_of(c))
-        if not found:
-            ctx.report("C17-stop-at-first", "eval/closure", "no closure of eval calls eval_root_ast", where_of(ev))
 
-    # ------------------------------------------------------------------ C17-incremental
-    ctx.rule("C17-incremental", "forms are read one at a time, each evaluated before the next is read (output of earlier "
-                                "forms precedes a later read error): outside the parser module nothing consumes a Parser "
-                                "eagerly except the evaluating try_fold / a `next` in the evaluating loop")
-    LAZY = {"map", "filter", "filter_map", "enumerate", "peekable", "skip_while", "take_while", "map_while", "skip", "take",
-            "scan", "flat_map", "flatten", "fuse", "inspect", "by_ref", "step_by", "chain", "zip", "cloned", "copied", "rev",
-            "size_hint", "into_iter"}
-    n_inc = 0
-    # the code that drives a program file: everything eval_file reaches before a form is handed to eval_root_ast
-    # (what happens inside the evaluation of one form, e.g. reading an imported library file, is not the program reader)
-    era_n = "interpreter::interpreter::Interpreter::eval_root_ast"
-    gl = fb.call_graph("lib")
-    drivers = fb.reachable_from(["interpreter::interpreter::Interpreter::eval_file"],
-                                graph={k: (v if k != era_n else set()) for k, v in gl.items()})
-    ctx.inst("C17-incremental", "driver-functions", sorted(x for x in drivers if not x.startswith("parser::") and "io::" not in x)[:12])
-    for crate in ("lib", "bin"):
-        for f in fb.all(crate):
-            if f.name.startswith("parser::") or f.name.startswith("<parser::"):
-                continue
-            if crate == "lib" and f.name.split("::{closure")[0] not in drivers:
-                continue
-            loops = None
-            for b, t in f.calls():
-                tys = t.get("argtys") or []
-                if not tys or "parser::Parser<" not in tys[0] or f.blocks[b]["cleanup"]:
+    def _old_flow():
+        # ------------------------------------------------------------------ C17-stop-at-first
+        ctx.rule("C17-stop-at-first", "eval stops at the first failing form: try_fold whose closure returns the "
+                                      "Result of eval_root_ast (or the reader's error) unchanged")
+        ev = fb.find("interpreter::interpreter::Interpreter::eval")
+        tf = [(b, t) for b, t in ev.calls() if callee_matches(t, "std::iter::Iterator::try_fold")]
+        fe = [(b, t) for b, t in ev.calls() if callee_matches(t, "for_each", "std::iter::Iterator::fold", "Iterator::map")]
+        if len(tf) != 1 or fe:
+            # alternative shapes (an explicit loop with `?`) are accepted when every eval_root_ast result is
+            # propagated with `?`: handled by C08-no-swallow; here we only insist on *some* propagating shape
+            loops = ev.loop_blocks()
+            era = [(b, t) for b, t in ev.calls() if callee_matches(t, "Interpreter::eval_root_ast")]
+            if not (era and all(b in loops for b, _ in era)) or fe:
+                ctx.report("C17-stop-at-first", "eval/shape", "eval neither try_folds nor loops over eval_root_ast with "
+                           "error propagation", where_of(ev))
+            else:
+                p = Prov(ev)
+                for b, t in era:
+                    ctx.inst("C17-stop-at-first", "eval/loop-call")
+                    sw = mir.result_switch_after(ev, ev.blocks[b]["term"].get("target")) if False else None
+                if not any(c == "interpreter::interpreter::Interpreter::eval_root_ast" or (c or "").endswith("from_residual")
+                           for _, c in p.call_roots(0)):
+                    ctx.report("C17-stop-at-first", "eval/return", "eval's result does not derive from eval_root_ast",
+                               where_of(ev))
+        else:
+            b, t = tf[0]
+            p = Prov(ev)
+            if not any((c or "").endswith("try_fold") for _, c in p.call_roots(0)):
+                ctx.report("C17-stop-at-first", "eval/return", "eval does not return the result of try_fold", where_of(ev, t))
+            cl = fb.closures_of(ev)
+            ctx.inst("C17-stop-at-first", "eval/try_fold", {"closures": [c.name for c in cl]})
+            found = False
+            for c in cl:
+                era = [(bb, tt) for bb, tt in c.calls() if callee_matches(tt, "Interpreter::eval_root_ast")]
+                if not era:
                     continue
-                c = callee(t) or ""
-                meth = c.rsplit("::", 1)[-1]
-                if not ("Iterator" in c or "itertools" in c.lower() or "FromIterator" in c or "Extend" in c):
+                found = True
+                pc = Prov(c)
+                roots = {n for _, n in pc.call_roots(0)}
+                ctx.inst("C17-stop-at-first", "eval/closure-return", {"roots": sorted(roots)})
+                # every return value must be either eval_root_ast's result or a propagated residual
+                bad = [r for r in roots if not (r.endswith("eval_root_ast") or r.endswith("from_residual"))]
+                consts = [r for r in pc.roots(0) if r[0] in ("agg",)] if not rewrapped_only(c, pc) else []
+                if bad or consts:
+                    ctx.report("C17-stop-at-first", "eval/closure-swallows", "the fold closure can return a value not "
+                               "produced by eval_root_ast (%s) — an error could be replaced" % (bad or consts), where_of(c))
+            if not found:
+                ctx.report("C17-stop-at-first", "eval/closure", "no closure of eval calls eval_root_ast", where_of(ev))
+
+        # ------------------------------------------------------------------ C17-incremental
+        ctx.rule("C17-incremental", "forms are read one at a time, each evaluated before the next is read (output of earlier "
+                                    "forms precedes a later read error): outside the parser module nothing consumes a Parser "
+                                    "eagerly except the evaluating try_fold / a `next` in the evaluating loop")
+        LAZY = {"map", "filter", "filter_map", "enumerate", "peekable", "skip_while", "take_while", "map_while", "skip", "take",
+                "scan", "flat_map", "flatten", "fuse", "inspect", "by_ref", "step_by", "chain", "zip", "cloned", "copied", "rev",
+                "size_hint", "into_iter"}
+        n_inc = 0
+        # the code that drives a program file: everything eval_file reaches before a form is handed to eval_root_ast
+        # (what happens inside the evaluation of one form, e.g. reading an imported library file, is not the program reader)
+        era_n = "interpreter::interpreter::Interpreter::eval_root_ast"
+        gl = fb.call_graph("lib")
+        drivers = fb.reachable_from(["interpreter::interpreter::Interpreter::eval_file"],
+                                    graph={k: (v if k != era_n else set()) for k, v in gl.items()})
+        ctx.inst("C17-incremental", "driver-functions", sorted(x for x in drivers if not x.startswith("parser::") and "io::" not in x)[:12])
+        for crate in ("lib", "bin"):
+            for f in fb.all(crate):
+                if f.name.startswith("parser::") or f.name.startswith("<parser::"):
                     continue
-                n_inc += 1
-                owner = f.name.split("::{closure")[0].rsplit("::", 1)[-1]
-                ctx.inst("C17-incremental", "%s/%s" % (owner, meth))
-                if meth in LAZY:
+                if crate == "lib" and f.name.split("::{closure")[0] not in drivers:
                     continue
-                if meth == "try_fold":
-                    ok = any(any(callee_matches(tt, "Interpreter::eval_root_ast") for _, tt in cl.calls()) for cl in fb.closures_of(f))
-                    why = "its closure does not evaluate the form"
-                elif meth == "next":
-                    loops = f.loop_blocks() if loops is None else loops
-                    # a reader of one library definition takes a single form: no loop, nothing to interleave
-                    ok = b not in loops or any(callee_matches(tt, "Interpreter::eval_root_ast", "Interpreter::eval_ast",
-                                                                 "Interpreter::eval_expression") and bb in loops for bb, tt in f.calls())
-                    why = "the loop that reads the forms does not evaluate them"
-                else:
-                    ok, why = False, "it drains the reader before anything is evaluated"
-                ctx.oblige(ok)
-                if not ok:
-                    ctx.report("C17-incremental", "%s/%s" % (owner, meth), "%s consumes the form reader with `%s`: %s, so output "
-                               "of forms before a read error would be lost / reordered" % (f.name, c, why), where_of(f, t))
-    ctx.floor("C17-incremental", 1)
-    if n_inc < 1:
-        ctx.report("C17-incremental", "floor", "no consumer of the form reader found outside the parser module", where_of(ev))
+                loops = None
+                for b, t in f.calls():
+                    tys = t.get("argtys") or []
+                    if not tys or "parser::Parser<" not in tys[0] or f.blocks[b]["cleanup"]:
+                        continue
+                    c = callee(t) or ""
+                    meth = c.rsplit("::", 1)[-1]
+                    if not ("Iterator" in c or "itertools" in c.lower() or "FromIterator" in c or "Extend" in c):
+                        continue
+                    n_inc += 1
+                    owner = f.name.split("::{closure")[0].rsplit("::", 1)[-1]
+                    ctx.inst("C17-incremental", "%s/%s" % (owner, meth))
+                    if meth in LAZY:
+                        continue
+                    if meth == "try_fold":
+                        ok = any(any(callee_matches(tt, "Interpreter::eval_root_ast") for _, tt in cl.calls()) for cl in fb.closures_of(f))
+                        why = "its closure does not evaluate the form"
+                    elif meth == "next":
+                        loops = f.loop_blocks() if loops is None else loops
+                        # a reader of one library definition takes a single form: no loop, nothing to interleave
+                        ok = b not in loops or any(callee_matches(tt, "Interpreter::eval_root_ast", "Interpreter::eval_ast",
+                                                                     "Interpreter::eval_expression") and bb in loops for bb, tt in f.calls())
+                        why = "the loop that reads the forms does not evaluate them"
+                    else:
+                        ok, why = False, "it drains the reader before anything is evaluated"
+                    ctx.oblige(ok)
+                    if not ok:
+                        ctx.report("C17-incremental", "%s/%s" % (owner, meth), "%s consumes the form reader with `%s`: %s, so output "
+                                   "of forms before a read error would be lost / reordered" % (f.name, c, why), where_of(f, t))
+        ctx.floor("C17-incremental", 1)
+        if n_inc < 1:
+            ctx.report("C17-incremental", "floor", "no consumer of the form reader found outside the parser module", where_of(ev))
+
+
+    ctx.guarded("C17-stop-at-first", d_flow, _old_flow)
 
     # ------------------------------------------------------------------ C17-same-path
+    ctx.rule("C17-read-errors", "an unreadable file is a diagnostic and a non-zero status: no Result<_, io::Error> is turned into "
+                                "None / a default / nothing anywhere in lib or bin")
+    from . import ioerrors
+    ioerrors.rule(ctx, "C17-read-errors")
     ctx.rule("C17-same-path", "eval_file = record the program directory, then eval(file_char_stream(path)?)")
     efn = fb.find("interpreter::interpreter::Interpreter::eval_file")
     fcs = [(b, t) for b, t in efn.calls() if callee_matches(t, "io::file_char_stream")]
